@@ -335,3 +335,19 @@ CLAIMED['C14']['text'] += ' Built messages with 31..100 small objects and an MPL
 CLAIMED['C16']['text'] += (' WHICH FILE (Tui/FileChoice.v, Proofs/FileChoiceProofs.v, c16_named_file_wins, c16_first_default_location, c16_no_file_is_default, c16_chosen_source_index; 53 obligations in all): the file named '
     'with -c wins whatever lies in the default locations, otherwise the first default location in the documented order that holds a file, otherwise the built-in defaults; c16loc lines run the real '
     'TrippyConfig::from over real files in all 2^8 combinations of the eight default locations (HOME / XDG_CONFIG_HOME / current directory redirected to a scratch directory), with and without -c.')
+
+# whole-run theorems added by the last proof pass (Proofs/RunTiming.v, RunWindow.v, SeqRuns.v, SeqRounds.v)
+CLAIMED['C08']['text'] += (' WHOLE RUNS (Proofs/RunTiming.v, 19 further theorems, 28 in all), for any clock readings - set back, repeated, jumping forward: at EVERY reading update_round takes a round is published if and only if '
+    'the policy holds on that reading, the start of the round in progress and its genuine answers (c08_run_exact; policy_b is shown to be the policy of the statement); never before min when min <= max, and refuted by witness without that order '
+    '(the core Builder does not check it, only the command-line layer does - outside the quantifier of C08); a reading at or before the round start never publishes; the round ends at the FIRST reading that satisfies the policy; '
+    'round counter = number of publications, on the wire and in the final state; round start = the reading taken at the publication (after the callback returned); bounded traces: the publication of round n-1 is the last observation and obeys the same policy; '
+    'zero and equal durations. The published reason is TargetFound exactly when the target answered in the round (c08_run_reason_is_policy, c08_reason_arm); the stricter reading "the reason names the disjunct that fired" is refuted by witness '
+    '(c08_target_found_without_grace_refuted: a round cut by the time limit while the target had answered less than the grace period ago is published as TargetFound) - recorded as an observation in DESIGN.md.')
+CLAIMED['C06']['text'] += (' WHOLE RUNS (Proofs/RunWindow.v, 13 further theorems, 26 in all): the send rule evaluated on the log prefix alone (c06_rule_reads) is exactly what the code decides at every iteration boundary (c06_rule_is_can_send); '
+    'EXACTNESS in both directions: every run log parses into complete iterations each of which sends exactly what the rule dictates (c06_run_iterations, c06_iteration_exact) - allowed means exactly one probe of the next ttl goes out, preceded only by refused TCP attempts '
+    '(c06_window_liveness), forbidden means nothing is handed to the network (c06_window_silence); closed form over quiet stretches (c06_quiet_stretch); every round starts again at first_ttl; '
+    'the ECMP rule stated exactly: after the target answered, a larger ttl goes out only if a non-target host answered a probe at or beyond the established distance (c06_beyond_distance_needs_reset, c06_known_distance_bounds).')
+CLAIMED['C07']['text'] += (' WHOLE RUNS (Proofs/SeqRuns.v, SeqRounds.v, 20 further theorems, 33 in all): the limits as the code decides them (65023; initial + 512 for Dublin to a 16-octet target); every issued sequence in [initial, limit + 512) and at most 65534; '
+    'no number twice within a round for every protocol; consecutive rounds disjoint IF AND ONLY IF no round that restarted at the initial sequence reaches the first number of the round before it - unconditional for ICMP / UDP, for TCP exactly when '
+    'initial_sequence <= 63999 or no round uses more than k numbers with initial + 2k <= limit, both bounds tight by witness runs (the known finding F2 stays visible as the refutation); the wrap happens exactly when the next round would not fit; '
+    'slot index below 512 at every send; the budget: a run that ends with the capacity error sent exactly round_sequence .. +511 and nothing beyond.')
